@@ -85,8 +85,16 @@ func (cm *MemClientMgr) Add(cc *ClientConn) {
 	cm.mu.Lock()
 	defer cm.mu.Unlock()
 
-	cm.nextClientID.Add(1)
-	binary.BigEndian.PutUint16(cc.ID[:], uint16(cm.nextClientID.Load()))
+	// Client IDs are 16 bit and wrap around after 65535 connections.  Skip IDs that are still held by a connected
+	// client, and 0, which transactions use to mean "no client".
+	for {
+		cm.nextClientID.Add(1)
+		binary.BigEndian.PutUint16(cc.ID[:], uint16(cm.nextClientID.Load()))
+
+		if _, inUse := cm.clients[cc.ID]; !inUse && cc.ID != (ClientID{}) {
+			break
+		}
+	}
 
 	cm.clients[cc.ID] = cc
 }
